@@ -54,7 +54,7 @@ def describe(cfg, **extra):
 def execute(cfg, budgets, **kw):
     return tracer.run_traced(cfg["name"], cfg["spec"], cfg["seed"], cfg["size"], budgets, evaluator=cfg["evaluator"],
                              explicit=cfg["explicit"], extreme=cfg["extreme"], op_rng=random.Random(cfg["op_seed"]),
-                             injected=cfg["injected"], **kw)
+                             injected=cfg["injected"], extra_kw=dict(cfg.get("extra") or {}), **kw)
 
 
 # errors that are documented refusals / known degenerate situations, not property failures
